@@ -210,12 +210,12 @@ func structFields(t reflect.Type, mapper int) []fieldRef {
 					best[name] = cand{fieldRef{name, ix}, depth}
 				}
 			}
-			if f.Anonymous && (name != "" || true) {
+			if f.Anonymous {
 				ft := f.Type
 				for ft.Kind() == reflect.Ptr {
 					ft = ft.Elem()
 				}
-				if ft.Kind() == reflect.Struct && (name != "" || f.Anonymous) {
+				if ft.Kind() == reflect.Struct {
 					walk(ft, ix, depth+1)
 				}
 			}
@@ -319,7 +319,16 @@ func (vw viewer) view(v reflect.Value, d int) string {
 			e = e.Elem()
 		}
 		switch e.Kind() {
-		case reflect.Struct, reflect.Array, reflect.Slice, reflect.Map:
+		case reflect.Map:
+			if e.IsNil() && e.Type() == typIfMap {
+				// only a direct nil map[string]interface{} is null; behind a pointer it is an (empty) map wrapper
+				if d > viewDepth {
+					return "…"
+				}
+				return "{}"
+			}
+			return vw.view(e, d)
+		case reflect.Struct, reflect.Array, reflect.Slice:
 			return vw.view(e, d)
 		case reflect.Func:
 			return "fn"
@@ -356,9 +365,6 @@ func (vw viewer) view(v reflect.Value, d int) string {
 	case reflect.Func:
 		return "fn"
 	case reflect.Slice, reflect.Array:
-		if v.Kind() == reflect.Slice && t == typIfSlice && false {
-			return "null"
-		}
 		if d > viewDepth {
 			return "…"
 		}
@@ -543,6 +549,10 @@ func (d *goDumper) dump(v reflect.Value) {
 		d.dump(e)
 	case reflect.Ptr:
 		if v.IsNil() {
+			if t == typBigIntPtr {
+				d.b.WriteString("big(0)") // documented: a nil *big.Int is 0n
+				return
+			}
 			d.b.WriteString("nil")
 			return
 		}
